@@ -328,7 +328,7 @@ def gen_cases(tier, seed):
         cases.append(dict(n=5 if quick or k < 4 else 6, data_seed=int(rng.integers(0, 10 ** 6)), all_perms=True, n_perm=0,
                           perm_seed=0, kind=["decision", "proba"][k % 2], learn=bool(k % 2), scaler="as-is",
                           train_fdr=0.5, max_iter=2, rng=int(rng.integers(0, 10 ** 6)), dups=0))
-    for k in range(130 if quick else 2500):
+    for k in range(130 if quick else 1000):
         kind = str(rng.choice(["decision", "proba"]))
         cases.append(dict(n=int(rng.integers(6, 31)), data_seed=int(rng.integers(0, 10 ** 6)), n_perm=2 if quick else 6,
                           perm_seed=int(rng.integers(0, 10 ** 6)), kind=kind, learn=bool(rng.random() < 0.6),
